@@ -597,6 +597,11 @@ func genPipeDoc(r *Run, nd bool) (doc []byte, desc string) {
 		doc, desc = genNewlineRuns(c)
 		return
 	}
+	if !nd && c.Intn("handover", 12) == 0 {
+		if hd, hdesc, ok := genHandoverDefect(r); ok {
+			return hd, hdesc
+		}
+	}
 	if !nd && c.Intn("emptybuffer", 14) == 0 {
 		// dense structurals, then a long token holding no structural: a later index buffer comes up empty
 		n := 8300 + c.Intn("ebprefix", 40000)
@@ -653,6 +658,102 @@ func genPipeDoc(r *Run, nd bool) (doc []byte, desc string) {
 		}
 	}
 	return
+}
+
+// genHandoverDefect: a defect placed exactly where stage 1 hands an index buffer over. The hand-over points are not
+// computed from the library's constants: a valid base document of a simple family (numbers, commas, white space) is parsed
+// once with a tap on the PSend hook, which reports how many indexes each buffer carried; the harness counts the
+// family's structurals itself and so learns the byte offset at which each buffer ended. Around a drawn hand-over a
+// separator is deleted (the tail moves up by one byte), blanked, doubled, or a value is inserted without one - whether the
+// result is valid is the reference parser's business, as for every other document.
+func genHandoverDefect(r *Run) ([]byte, string, bool) {
+	c := r.C
+	var b bytes.Buffer
+	b.WriteByte('[')
+	n := 9000 + c.Intn("hosz", 60000)
+	for b.Len() < n {
+		b.WriteString([]string{"0,", "0 ,", "0  ,", "12,", "7 ,", "1,", "3   ,", "\"a\",", "\"b\" ,", "true,", "null ,"}[c.Intn("hoitem", 11)])
+	}
+	b.WriteString("0]")
+	base := append([]byte(nil), b.Bytes()...)
+	// observe the buffer sizes of the base document
+	var lens []int
+	setTap(func(ev simdjson.SimEvent, h simdjson.SimHandle, arg int) {
+		if ev == simdjson.SimPSend && arg >= 0 {
+			lens = append(lens, arg)
+		}
+	})
+	_, perr := simdjson.Parse(append([]byte(nil), base...), nil)
+	setTap(nil)
+	if perr != nil || len(lens) < 2 {
+		return nil, "", false
+	}
+	// structural positions of this family: brackets, commas, and the first byte of every scalar token
+	var st []int
+	inStr := false
+	for i, ch := range base {
+		switch {
+		case ch == '"':
+			if !inStr {
+				st = append(st, i)
+			}
+			inStr = !inStr
+		case inStr:
+		case ch == '[' || ch == ']' || ch == ',':
+			st = append(st, i)
+		case ch != ' ' && (i == 0 || base[i-1] == ' ' || base[i-1] == ',' || base[i-1] == '['):
+			st = append(st, i)
+		}
+	}
+	total := 0
+	for _, l := range lens {
+		total += l
+	}
+	if total != len(st) {
+		return nil, "", false // the harness's count of this family's structurals does not match what was sent: leave it
+	}
+	k := c.Intn("hobuf", len(lens)-1)
+	cum := 0
+	for i := 0; i <= k; i++ {
+		cum += lens[i]
+	}
+	last := st[cum-1] // last index the k-th buffer carried
+	// the separators around the hand-over
+	nextComma := bytes.IndexByte(base[last:], ',')
+	if nextComma < 0 {
+		return nil, "", false
+	}
+	nextComma += last
+	out := append([]byte(nil), base...)
+	how := ""
+	switch c.Intn("hodefect", 6) {
+	case 0:
+		out = append(out[:nextComma], out[nextComma+1:]...)
+		how = "separator after the hand-over deleted"
+	case 1:
+		out[nextComma] = ' '
+		how = "separator after the hand-over blanked"
+	case 2:
+		out = append(out[:nextComma], append([]byte(",,"), out[nextComma+1:]...)...)
+		how = "separator after the hand-over doubled"
+	case 3:
+		if pc := bytes.LastIndexByte(base[:last], ','); pc > 0 {
+			out = append(out[:pc], out[pc+1:]...)
+			how = "separator before the hand-over deleted"
+		}
+	case 4:
+		ins := []string{" 7", "7", " \"x\"", "x", "\x00"}[c.Intn("hoins", 5)]
+		out = append(out[:nextComma], append([]byte(ins), out[nextComma:]...)...)
+		how = "token inserted in front of the separator after the hand-over"
+	case 5:
+		// nothing changed: the valid base document itself (alignment family)
+		how = "unchanged"
+	}
+	if how == "" {
+		return nil, "", false
+	}
+	r.stat("handover_targeted_documents", 1)
+	return out, fmt.Sprintf("handover-targeted size=%d buffers=%d at buffer %d (offset %d): %s", len(out), len(lens), k, last, how), true
 }
 
 // genNewlineRuns draws an NDJSON input whose documents are separated by runs of line feeds - in that mode every line
